@@ -172,6 +172,9 @@ class Engine:
         self.paths = 0
         self.inlined: set[str] = set()
         self.unresolved_effect_calls: list[str] = []
+        self.memoise = True
+        self._memo: set = set()
+        self.memo_hits = 0
         self.nondet_iter: set[str] = set()
 
     # ---- which callees matter
@@ -203,8 +206,41 @@ class Engine:
         return res
 
     # ---- public entry
+    def _memo_hit(self, node: ast.AST, k: int, fr: "Frame", st: State) -> bool:
+        """Loop-head memoisation: the future of a path depends only on the abstract state, so a
+        second arrival at the same loop head with an identical state (token states, id sets, token
+        bindings of the frame) is pruned.  Findings are keyed by event signatures, not token names."""
+        if not self.memoise:
+            return False
+        def tstate(t: str):
+            i = st.istates.get(t)
+            return (tuple(sorted(i.status)), i.own, i.queued, i.responsible, i.accepted) if i else None
+
+        # token names are erased: states are compared up to renaming of tokens
+        sk = tuple(sorted(tstate(t) for t in st.istates))
+
+        def vkey(v):
+            if isinstance(v, Inv):
+                return ("inv", tstate(v.tok))
+            if isinstance(v, StatusOf):
+                return ("status", tstate(v.tok))
+            if isinstance(v, IdSet):
+                return ("idset", tuple(tstate(m) for m in v.members))
+            if isinstance(v, SetRef):
+                return ("set", tuple(tstate(m) for m in st.sets.get(v.ref, ())))
+            return None
+
+        ek = tuple(sorted((n, vkey(v)) for n, v in fr.env.items() if isinstance(v, (Inv, SetRef, IdSet, StatusOf)) and not n.startswith("__arg")))
+        key = (id(node), k, sk, ek, id(fr.on_yield) if fr.on_yield else 0)
+        if key in self._memo:
+            self.memo_hits += 1
+            return True
+        self._memo.add(key)
+        return False
+
     def run(self, f: FuncInfo, env: dict, state: State | None = None, on_yield=None) -> list[tuple[State, Outcome]]:
         self.paths = 0
+        self._memo = set()
         st = state or State()
         out = []
         for s, o in self.exec_func(f, env, st, on_yield):
@@ -364,6 +400,8 @@ class Engine:
     def loop_while(self, n: ast.While, fr: "Frame", st: State, k: int) -> Iterator[tuple[State, Outcome]]:
         # zero or more iterations; the test may have effects (walrus pop)
         const_true = isinstance(n.test, ast.Constant) and bool(n.test.value)
+        if self._memo_hit(n, k, fr, st):
+            return
         for s, truth, fr2, exc in self.cond(n.test, fr, st):
             if exc:
                 yield s, Outcome("raise", exc=exc)
@@ -433,6 +471,8 @@ class Engine:
         return UNK
 
     def iterate_source(self, n, fr, st, src: Source, k: int) -> Iterator[tuple[State, Outcome]]:
+        if self._memo_hit(n, k, fr, st):
+            return
         # zero iterations
         yield st, Outcome("normal")
         if k <= 0:
